@@ -125,7 +125,7 @@ PLAN = {
                           "of their sizes; Memo.__call__ returns the walk evaluated now",
             "level_note": "order and absence of duplicates in the list (sorted(); every entry once) are bounded; termination of the walk is "
                           "not proved (finite tree without symlink cycles assumed); file reads: readinto short only at EOF; SHA-1 "
-                          "uninterpreted; L3 (unique prefix of given length) by hand / lemmas/L3_stream.lean",
+                          "uninterpreted; L3 (unique prefix of given length): lemmas/Lemmas.lean L3_unique_prefix, compiled on every run; its application to the relational stream postconditions is a hand step",
             "modulo_bounded": ["order / uniqueness of the listing", "MetaFile.__init__ -> assemble wiring of piece_length (C12 contract)"],
             "trusted": ["io.BufferedReader.readinto on regular files", "no concurrent modification while hashing"]},
     "C15": {"functions": [], "harness": True,
@@ -151,7 +151,7 @@ PLAN = {
                           "the root is over the padded piece layer of the whole file); assemble of all three creators for single files and "
                           "directories (file tree, length, meta version, piece layers keys).  The values stored under the layer keys of a "
                           "directory torrent are decided by the bounded harness against an independent BEP 52 reference",
-            "level_note": "L2 (layer-wise root of padded piece roots == root over all padded leaves) is a hand/Lean lemma, not compiled by the "
+            "level_note": "L2 (layer-wise root of padded piece roots == root over all padded leaves) is lemmas/Lemmas.lean root_decompose, compiled on every run but applied by hand, not by the "
                           "check; piece_roots / leaves / tree_of / layered_under are spec functions defined by ground unfolding instances of "
                           "their recursive definitions; termination of the walk is not proved",
             "modulo_bounded": ["piece-layer values (not keys) of directory torrents"],
